@@ -27,7 +27,7 @@ ASSUMPTIONS = ["independent FAB location = byte search for the header text namin
 def cases(draw, tier="quick"):
     spec = draw(plotgen.plot_specs(max_cells=1500 if tier == "quick" else 5000, max_fields=4,
                                    payload_kinds=("coded", "random", "special")))
-    kinds = corrupt.SOFT * 5 + corrupt.HARD
+    kinds = corrupt.SOFT * 5 + corrupt.HARD + ["fab_ncomp_consistent", "nfields_plus"] * 3
     ops = draw(st.lists(corrupt.op_strategy(kinds), min_size=1, max_size=3))
     limit = draw(st.one_of(st.none(), st.integers(0, spec["mesh"]["nlev"] - 1)))
     return dict(spec=spec, ops=ops, limit=limit, field=draw(st.integers(0, len(spec["fields"]) - 1)))
